@@ -167,10 +167,10 @@ func class(got, want []string) string {
 func TestC15(t *testing.T) {
 	r := ev.Start(t, "C15", "exploration")
 	defer r.Finish()
-	alpha := []byte{'\n', '\r', 'a', 0xC3, 0xA9}
-	maxLen := ev.Pick(5, 7)
+	alpha := []byte{'\n', '\r', 'a', 0xC3, 0xA9, 0x00}
+	maxLen := ev.Pick(5, 6)
 	bufs := []int{1, 2, 3, 5, 8, 64}
-	r.Rule(fmt.Sprintf("exhaustive: every byte string of length <=%d over {LF, CR, 'a', 0xC3, 0xA9} x every chunking (2^(n-1) cut sets) x buffer sizes %v x 3 reader behaviours, each driven through the real LineReader (ReadAndSend until (0, EOF), then Finish) and compared with the reference splitter; then long random streams through the 128KiB default buffer. Non-trivial: stream contains a newline and the chunking has at least one cut; distinct by (stream, cuts, buffer, behaviour).", maxLen, bufs))
+	r.Rule(fmt.Sprintf("exhaustive: every byte string of length <=%d over {LF, CR, 'a', 0xC3, 0xA9, NUL} x every chunking (2^(n-1) cut sets) x buffer sizes %v x 3 reader behaviours, each driven through the real LineReader (ReadAndSend until (0, EOF), then Finish) and compared with the reference splitter; then long random streams through the 128KiB default buffer. Non-trivial: stream contains a newline and the chunking has at least one cut; distinct by (stream, cuts, buffer, behaviour).", maxLen, bufs))
 	r.Assume("the reader is driven the way the streams drive it: repeated ReadAndSend, Finish once when the source ends")
 
 	tStart := time.Now()
@@ -226,7 +226,7 @@ func TestC15(t *testing.T) {
 	r.Set("exhaustive_streams", len(streams))
 	r.Set("exhaustive_wall_s", time.Since(tStart).Seconds())
 	r.Exhaustive(false)
-	r.Set("exhaustive_part", fmt.Sprintf("complete for |stream|<=%d over the 5-byte alphabet, all chunkings, buffers %v, 3 reader behaviours", maxLen, bufs))
+	r.Set("exhaustive_part", fmt.Sprintf("complete for |stream|<=%d over the 6-byte alphabet, all chunkings, buffers %v, 3 reader behaviours", maxLen, bufs))
 	r.Sample(map[string]any{"stream": "\"a\\r\\n\\xc3\\xa9\\n\\r\"", "cuts": []int{2, 4}, "buffer": 2, "behaviour": behaviours[2], "want": qs(refSplit("a\r\n\xc3\xa9\n\r"))})
 
 	// long random streams through the default buffer
@@ -253,7 +253,7 @@ func TestC15(t *testing.T) {
 				ll = g.Intn(300)
 			}
 			for j := 0; j < ll; j++ {
-				sb.WriteByte("abcdefghij\r\xc3\xa9 "[g.Intn(14)])
+				sb.WriteByte("abcdefghij\r\xc3\xa9 \x00"[g.Intn(15)])
 			}
 			switch g.Intn(4) {
 			case 0:
@@ -329,7 +329,7 @@ func TestC15(t *testing.T) {
 			}
 			b := make([]byte, n)
 			for k := range b {
-				b[k] = "\n\n\raxyz\xc3\xa9 "[g.Intn(10)]
+				b[k] = "\n\n\raxyz\xc3\xa9 \x00"[g.Intn(11)]
 			}
 			return string(b)
 		}
